@@ -101,10 +101,13 @@ type faultRun struct {
 
 // runFault executes the scenario once with one fault and emits the life-cycle events.
 func runFault(sc *scn.Scenario, em func(vt.Ev), mode string, k int64, baseline *faultRun) *faultRun {
+	gate := strings.TrimPrefix(strings.TrimPrefix(mode, "gate:"), "gateq:")
+	isGate := strings.HasPrefix(mode, "gate:") || strings.HasPrefix(mode, "gateq:")
+	viaQuery := strings.HasPrefix(mode, "gateq:") // cancel through Query.Cancel() instead of the caller's context
 	sink := &vt.Sink{}
 	series := run.SeriesOf(sc, sc.Data)
 	dist := sc.CfgInt("dist", 0) == 1
-	honour := mode == "cancel" || mode == "block" || mode == "cancelcall" || strings.HasPrefix(mode, "gate:")
+	honour := mode == "cancel" || mode == "block" || mode == "cancelcall" || strings.HasPrefix(mode, "gate")
 	ctx, cancel := context.WithCancel(context.Background())
 	defer cancel()
 	mk := func(ss []vstore.Series, idbase int64) *vstore.Store {
@@ -141,7 +144,7 @@ func runFault(sc *scn.Scenario, em func(vt.Ev), mode string, k int64, baseline *
 	for i, st := range all {
 		snaps[i] = st.Snapshot()
 	}
-	if mode != "none" && mode != "cancelcall" && !strings.HasPrefix(mode, "gate:") {
+	if mode != "none" && mode != "cancelcall" && !isGate {
 		main.Inj = &vstore.Inject{K: k, Kind: mode, Cancel: cancel}
 	}
 	// scheduling points (hook H2): count them; in mode "gate:<point>" cancel the context when the
@@ -149,18 +152,22 @@ func runFault(sc *scn.Scenario, em func(vt.Ev), mode string, k int64, baseline *
 	// goroutines of the query see the cancellation first
 	var pmu sync.Mutex
 	points := map[string]int64{}
-	gate := strings.TrimPrefix(mode, "gate:")
+	var qryForGate promql.Query
 	gateFired := false
 	model.SetVerifYield(func(p string) {
 		pmu.Lock()
 		points[p]++
-		hit := strings.HasPrefix(mode, "gate:") && p == gate && points[p] == k
+		hit := isGate && p == gate && points[p] == k
 		if hit {
 			gateFired = true
 		}
 		pmu.Unlock()
 		if hit {
-			cancel()
+			if viaQuery && qryForGate != nil {
+				qryForGate.Cancel()
+			} else {
+				cancel()
+			}
 			time.Sleep(300 * time.Microsecond)
 		}
 	})
@@ -174,6 +181,9 @@ func runFault(sc *scn.Scenario, em func(vt.Ev), mode string, k int64, baseline *
 	if err != nil {
 		return nil
 	}
+	pmu.Lock()
+	qryForGate = qry
+	pmu.Unlock()
 	sink.Emit(vt.Ev{"ev": "create"})
 	sink.Emit(vt.Ev{"ev": "execstart"})
 	done := make(chan *promql.Result, 1)
@@ -219,7 +229,7 @@ func runFault(sc *scn.Scenario, em func(vt.Ev), mode string, k int64, baseline *
 		sink.Emit(vt.Ev{"ev": "fired", "at": inj.At})
 	} else if mode == "cancelcall" {
 		sink.Emit(vt.Ev{"ev": "fired", "at": "Cancel()"})
-	} else if strings.HasPrefix(mode, "gate:") {
+	} else if isGate {
 		pmu.Lock()
 		gf := gateFired
 		pmu.Unlock()
@@ -251,7 +261,7 @@ func runFault(sc *scn.Scenario, em func(vt.Ev), mode string, k int64, baseline *
 	}
 	sink.Emit(vt.Ev{"ev": "census", "alive": alive, "where": where, "mutated": mutated})
 	rmode := mode
-	if strings.HasPrefix(mode, "gate:") {
+	if isGate {
 		rmode = "cancel" // for the specification a gate is a cancellation at a scheduling point
 	}
 	em(vt.Ev{"ev": "run", "mode": rmode, "k": k})
@@ -357,6 +367,7 @@ func famFault(sc *scn.Scenario, em func(vt.Ev)) {
 				}
 				for _, k := range ks {
 					runFault(sc, em, "gate:"+p, k, base)
+					runFault(sc, em, "gateq:"+p, k, base)
 				}
 			}
 			continue
